@@ -2544,6 +2544,8 @@ class Recipe:
             after_substances += step.trash.get(substance, 0)
             delta += after_substances - before_substances
 
+        # before/after sums over many wells carry float noise around an exact balance
+        delta = round(delta, config.internal_precision)
         if delta < 0:
             raise ValueError(
                 f"Destination containers contain {-delta} {from_unit} less of substance {substance}" +
